@@ -46,7 +46,12 @@ type KnownFinding struct {
 }
 
 func loadKnown() []KnownFinding {
-	b, err := os.ReadFile(filepath.Join(verifDir(), "known_findings.json"))
+	kp := filepath.Join(verifDir(), "known_findings.json")
+	if so := scratchOut(); so != "" && os.Getenv("VERIF_KNOWN") != "" {
+		// scratch runs only (VERIF_REPO set): try a candidate repair against a findings file in which it is marked fixed
+		kp = os.Getenv("VERIF_KNOWN")
+	}
+	b, err := os.ReadFile(kp)
 	if err != nil {
 		return nil
 	}
